@@ -564,7 +564,9 @@ def g6(e: Engine, rep: Report, rule: str):
 # ---------------------------------------------------------------------- G7
 def g7(e: Engine, rep: Report, rule: str):
     ctx = e.method_ctx(SERVER, 'handle')
-    g = e.build(ctx)
+    g = e.build(ctx, inline=e.inline_same_self(
+        deny=['_handle_command', '_call_custom_handler', '_recv_command',
+              '_encrypt_session']), max_depth=3)
     where = ctx.func.qname
     rep.functions.add(where)
 
